@@ -193,6 +193,12 @@ def cells(tier):
     inter = [i for i in range(0, many + 1, 2)] + [i for i in range(1, many + 1, 2)]
     out.append(mk(PID, ('roMetadataReplace',) * many, False, 'file', T=T, mids=mm, may_fail=False, perm=inter,
                   tag='70-messages-interleaved'))
+    # a failing message after a roReplace (strict: the collection holds the replaced running order; non-strict: it goes on)
+    for tr in (('roReplace', 'roStoryMove'), ('roReplace', 'roStoryDelete', 'roStoryMove'), ('roStoryMove', 'roReplace', 'roStoryMove')):
+        for strict in (True, False):
+            out.append(mk(PID, tr, strict, 'string', T=T, mids=['9', '10', '100'][:len(tr)], tag='around-roReplace'))
+    out.append(mk(PID, ('roDelete', 'roReplace'), True, 'file', T=T, mids=['9', '10'], perm=[2, 1, 0], tag='around-roReplace'))
+    out.append(mk(PID, ('roDelete', 'roReplace'), False, 'string', T=T, mids=['9', '10'], tag='around-roReplace'))
     for q in QUADS if tier == 'thorough' else QUADS[:1]:
         for strict in (True, False):
             out.append(mk(PID, q, strict, 'string', T=2 * T))
